@@ -1087,3 +1087,76 @@ fn swap_root_operands(t: &mut Term) -> bool {
         _ => false,
     }
 }
+
+
+// ---------------------------------------------------------------------------------------------
+// cold start: the first things a fresh process does
+
+/// One value of every constructor family is built, hashed and stored IN A DRAWN ORDER as the very
+/// first use of the library in a fresh process; afterwards every stored value must still hash as
+/// it did, still be found, and equal (and hash like) a twin built now. Catches state that is set up
+/// lazily on the first use of some family and changes how earlier values hash or compare.
+pub fn cold_start(ch: &mut Choices) -> Vec<Violation> {
+    use narsese::enum_narsese::Term as T;
+    let w = |n: &str| T::new_word(n);
+    let builders: Vec<(&'static str, Box<dyn Fn() -> Term>)> = vec![
+        ("word", Box::new(move || w("A"))),
+        ("variable", Box::new(|| T::new_variable_independent("x"))),
+        ("interval", Box::new(|| T::new_interval(3))),
+        ("similarity of atoms", Box::new(move || T::new_similarity(w("A"), w("B")))),
+        ("equivalence of statements", Box::new(move || T::new_equivalence(T::new_inheritance(w("A"), w("B")), T::new_similarity(w("C"), w("D"))))),
+        ("inheritance around a similarity", Box::new(move || T::new_inheritance(T::new_similarity(w("A"), w("B")), w("C")))),
+        ("negation", Box::new(move || T::new_negation(w("A")))),
+        ("product", Box::new(move || T::new_product(vec![w("A"), w("B")]))),
+        ("image", Box::new(move || T::new_image_extension(1, vec![w("R"), w("A")]))),
+        ("extensional set", Box::new(move || T::new_set_extension(vec![w("A"), w("B")]))),
+        ("conjunction", Box::new(move || T::new_conjunction(vec![w("A"), T::new_similarity(w("B"), w("C"))]))),
+        ("set of sets", Box::new(move || T::new_set_intension(vec![T::new_set_extension(vec![w("A"), w("B")]), w("C")]))),
+        ("parsed statement", Box::new(|| match ENUM_FORMATS[0].parse::<Narsese>("<{A, B} <-> (&&, C, D)>") {
+            Ok(NarseseValue::Term(t)) => t,
+            _ => T::new_word("unparsed"),
+        })),
+    ];
+    let order = ch.permutation(builders.len());
+    let key = 0x5eed_c01d;
+    let mut out: Vec<Violation> = vec![];
+    let run = guarded(|| {
+        let mut stored: Vec<(usize, Term, [u64; 3])> = vec![];
+        let mut table: HashSet<Term, SipBuild> = HashSet::with_hasher(SipBuild);
+        let mut map: HashMap<Term, usize, FnvBuild> = HashMap::with_hasher(FnvBuild);
+        let mut bad: Option<(&'static str, String)> = None;
+        for &i in &order {
+            let v = (builders[i].1)();
+            let h = hash3(&v, key);
+            table.insert(v.clone());
+            map.insert(v.clone(), i);
+            stored.push((i, v, h));
+        }
+        for (i, v, h) in &stored {
+            let name = builders[*i].0;
+            let now = hash3(v, key);
+            let twin = (builders[*i].1)();
+            let first_of = format!("(order of first use in this process: {})", order.iter().map(|j| builders[*j].0).collect::<Vec<_>>().join(", "));
+            if now != *h {
+                bad.get_or_insert(("hash-unstable", format!("the {name} built at process start hashes differently at the end of the cold start {first_of}")));
+            }
+            if !(twin == *v) || !(*v == twin) {
+                bad.get_or_insert(("same-term-compares-unequal", format!("the {name} built at process start and the same {name} built later compare unequal {first_of}")));
+            } else if hash3(&twin, key) != now {
+                bad.get_or_insert(("equal-terms-hash-differently", format!("the {name} built at process start and the same {name} built later hash differently {first_of}")));
+            } else if !table.contains(&twin) || map.get(&twin) != Some(i) {
+                bad.get_or_insert(("key-stored-earlier-not-found-later", format!("a {name} stored in a HashSet / HashMap at process start is not found by an equal {name} built later {first_of}")));
+            }
+        }
+        bad
+    });
+    match run {
+        Some(None) => {}
+        Some(Some((kind, msg))) => {
+            let prop = if kind == "same-term-compares-unequal" { "C06" } else { "C07" };
+            out.push(Violation { prop, kind: kind.to_string(), message: format!("cold start: {msg}") });
+        }
+        None => out.push(Violation { prop: "C06", kind: "panic-while-comparing-or-hashing".into(), message: "cold start: a panic escaped".into() }),
+    }
+    out
+}
